@@ -135,11 +135,20 @@ P("cal_done", SUPLA_CALCFG_RESULT_DONE); P("cal_unauth", SUPLA_CALCFG_RESULT_UNA
 P("cal_notsupp", SUPLA_CALCFG_RESULT_NOT_SUPPORTED); P("cfg_btn_press_time", CFG_BTN_PRESS_TIME);
 P("cfg_btn_press_count", CFG_BTN_PRESS_COUNT);
 """, includes_c=["supla_esp.h", "proto.h", "supla_esp_input.h"])
+    dv = open(os.path.join(C.REPO, "src/user/supla_esp_devconn.c")).read()
+    m1 = re.search(r"t2 >= \(devconn->server_activity_timeout\+(\d+)\)", dv)
+    m2 = re.findall(r"devconn->server_activity_timeout-(\d+)\)", dv)
+    if not m1 or len(m2) != 2 or m2[0] != m2[1]:
+        raise ExtractError("timer1_cb: window literals not recognised")
+    g = run_probe("p_wd", 'P("wd_timeout", WATCHDOG_TIMEOUT_SEC); P("wd_soft", WATCHDOG_SOFT_TIMEOUT_SEC);',
+                  includes_c=["supla_esp.h"])
+    g.update({"ka_reconnect": m1.group(1), "ka_window": m2[0]})
     a.update(b)
     a.update(c)
     a.update(d)
     a.update(e)
     a.update(f)
+    a.update(g)
     return a
 
 
@@ -151,6 +160,7 @@ def emit_consts():
         "import SuplaVerif.Model.Dns",
         "import SuplaVerif.Model.RsRelay",
         "import SuplaVerif.Model.CalCfg",
+        "import SuplaVerif.Model.KeepAlive",
         "namespace SuplaVerif.Gen",
         "",
         "def protoParams : ProtoParams :=",
@@ -196,6 +206,9 @@ def emit_consts():
         "    resDone := %s, resUnauth := %s, resNotSupp := %s }" % (k["cal_done"], k["cal_unauth"], k["cal_notsupp"]),
         "def cfgBtnPressTimeMs : Nat := %s" % k["cfg_btn_press_time"],
         "def cfgBtnPressCount : Nat := %s" % k["cfg_btn_press_count"],
+        "def kaConsts : KaConsts :=",
+        "  { pingWindow := %s, reconnectAdd := %s, wdTimeout := %s, wdSoft := %s }" % (
+            k["ka_window"], k["ka_reconnect"], k["wd_timeout"], k["wd_soft"]),
         "def dnsTimeoutMs : Nat := %s" % k["dns_timeout"],
         "def dnsRetryMs : Nat := %s" % k["dns_retry"],
         "/-- field offsets / literals of the reply parser the model hard-codes -/",
